@@ -47,6 +47,7 @@ type FuncContract struct {
 	Where    string
 	Requires []*Clause
 	Ensures  []*Clause
+	GhostDefs []*Clause // ghost updates performed at every return: defines <ghost> = expr
 	Exits    []*Clause // exit assertions: checked at every return where their locals are live; not part of the callers' view
 	Modifies []*Clause
 	Uses     []*Clause
@@ -122,7 +123,7 @@ func newContracts() *Contracts {
 }
 
 var clauseKeywords = map[string]bool{
-	"spec": true, "pred": true, "axiom": true, "ghost": true, "func": true, "requires": true, "ensures": true, "exit": true,
+	"spec": true, "pred": true, "axiom": true, "ghost": true, "func": true, "requires": true, "ensures": true, "exit": true, "defines": true,
 	"modifies": true, "use": true, "decreases": true, "inline": true, "trusted": true, "loop": true, "end": true,
 	"invariant": true, "package": true, "fnparam": true, "nullable": true, "pure": true, "nobody": true, "gaxiom": true, "useret": true, "implements": true, "define": true, "transition": true, "include": true, "loopinv": true, "params": true,
 }
@@ -423,6 +424,23 @@ func (cs *Contracts) loadFile(path string, goFile bool) error {
 				return err
 			}
 			curLoop.Transitions = append(curLoop.Transitions, c)
+		case "defines":
+			if cur == nil {
+				return fail(fmt.Errorf("defines outside func"))
+			}
+			// defines g = expr  (parsed as the equation g == expr)
+			j := strings.Index(rest, "=")
+			if j < 0 {
+				return fail(fmt.Errorf("defines needs <ghost> = <expr>"))
+			}
+			saved := rest
+			rest = strings.TrimSpace(rest[:j]) + " == (" + strings.TrimSpace(rest[j+1:]) + ")"
+			c, err := mkClause("defines")
+			rest = saved
+			if err != nil {
+				return err
+			}
+			cur.GhostDefs = append(cur.GhostDefs, c)
 		case "requires", "ensures", "exit", "modifies", "use", "decreases", "invariant":
 			if cur == nil {
 				return fail(fmt.Errorf("%s outside func", kw))
